@@ -1052,6 +1052,9 @@ class CParser:
         self._expect("LPAREN")
         typ = self._parse_type_name()
         self._expect("RPAREN")
+        if isinstance(typ.type, (c_ast.ArrayDecl, c_ast.FuncDecl)):
+            # C11 6.7.2.4: the type name shall not be an array or function type
+            self._parse_error("Invalid _Atomic type specifier", typ.coord)
         typ.quals.append("_Atomic")
         return typ
 
